@@ -71,7 +71,8 @@ def renderings(files, subset):
     top = [f for f in files if "/" not in f]
     exts = sorted({os.path.splitext(f)[1] for f in S if "/" not in f})
     if S and all("/" not in f for f in S) and exts:
-        pats = ["*" + e for e in exts] + ["!" + f for f in top if os.path.splitext(f)[1] in exts and f not in S] + ["!sub/"]
+        # anchored to the top level: `*.c` alone would also match the .c files of the sub-directories
+        pats = ["/*" + e for e in exts] + ["!/" + f for f in top if os.path.splitext(f)[1] in exts and f not in S]
         out.append(("ext+negation", pats))
     if set(S) == {f for f in files if f.startswith("sub/")} and S:
         out.append(("directory", ["sub/"]))
@@ -169,7 +170,8 @@ def _work(arg):
                                    note="get_setmap of the state of the unexcluded analysis, asked with this exclusion list after other lists"))
             if {k: v for k, v in sm1.items() if v} != {k: v for k, v in exp_sm.items() if v}:
                 out.append(Failure("setmap", w, expected=sorted(([sorted(k), v] for k, v in exp_sm.items()), key=str), observed=sorted(([sorted(k), v] for k, v in sm1.items()), key=str)))
-            if with_cli and rname in ("anchored", "ext+negation", "directory"):
+            # order-sensitive lists (a negation after the pattern it re-includes from) always go through the front ends
+            if (with_cli or rname == "ext+negation") and rname in ("anchored", "ext+negation", "directory"):
                 n += 1
                 bad = cli_equiv(root, plats, pats)
                 for b in bad:
